@@ -19,14 +19,16 @@
 (*                 stored aggregate panics (aggPerValidator is never made) *)
 (*   SearchNilAgg  Search panics when a matching data root has no stored   *)
 (*                 aggregate (nil *MinAggregates dereferenced)             *)
+(*   SelectNilMember  SyncCommitteeMessages.Select dereferences the nil    *)
+(*                 message of a member that has no stored message         *)
 (*   SyncNilMap    Add{Message,Contribution} routed to a window buffer     *)
 (*                 whose map was never made (before / right after the      *)
 (*                 first Reset) panics                                     *)
 (***************************************************************************)
 EXTENDS Integers, Sequences, FiniteSets, TLC, Json
 
-CONSTANTS KnownDeviations,   \* subset of {"AggNilMap", "SearchNilAgg", "SyncNilMap"}
-          Which,             \* model checking: which pool kind is exercised: "att" | "keyed" | "sync"
+CONSTANTS KnownDeviations,   \* subset of {"AggNilMap", "SearchNilAgg", "SyncNilMap", "SelectNilMember"}
+          Which,             \* model checking: which pool kind is exercised: "att" | "keyed" | "sync" | "select"
           MaxCalls
 
 Range(s) == {s[x] : x \in 1..Len(s)}
@@ -41,6 +43,16 @@ Core(a)   == [slot |-> a.slot, index |-> a.index, epoch |-> a.epoch, var |-> a.v
 PosSet(bits) == {x \in 1..Len(bits) : bits[x] = 1}
 Participants(a) == {a.comm[x] : x \in PosSet(a.bits)}
 WellFormed(a) == Len(a.bits) = Len(a.comm) /\ PosSet(a.bits) # {}
+
+(* Ill-formed input (outside the statement's "well-formed"): no bit set, a bitlist that does not fit the committee, *)
+(* or an aggregate of another length than the aggregates stored for its data.  Lenient rule: refused (or absorbed), *)
+(* nothing stored, never a panic.  (An aggregate with a wrong committee for data the pool holds no aggregate of  *)
+(* is not offered: nothing in the statement bounds what the pool does with it.)                                  *)
+IllFormed(P, a) ==
+  \/ ~WellFormed(a)
+  \/ /\ Cardinality(PosSet(a.bits)) >= 2
+     /\ \E x \in P.acc : <<x.slot, x.index, x.epoch, x.var>> = <<a.slot, a.index, a.epoch, a.var>>
+                         /\ Len(x.bits) # Len(a.bits)
 
 AttEmpty == [acc     |-> {},   \* accepted aggregates (cores) not pruned: Search MAY return them
              must    |-> {},   \* those Search MUST return (accepted and not covered when accepted)
@@ -121,6 +133,7 @@ KeyedAll(K) == {x.id : x \in K}
 (* item = [id, kind ("msg" | "contrib"), slot, v, root, sub]                                                     *)
 
 SyncEmpty == [cur |-> -1, held |-> {},
+              sel |-> {},    \* a SyncCommitteeMessages map of its own (for Select): set of [v, root, id], one per v
               mk |-> [prev |-> FALSE, cur |-> FALSE, next |-> FALSE]]   \* code-shaped: which buffers' maps exist
 
 InWin(held, c) == {x \in held : x.slot >= c - 1 /\ x.slot <= c + 1}
@@ -166,6 +179,19 @@ SyncResetOutcomes(Y, s) ==
       keep == [Y EXCEPT !.cur = s, !.held = InWin(Y.held, s), !.mk = CodeMk(Y, s)]
       drop == [Y EXCEPT !.cur = s, !.held = {}, !.mk = CodeMk(Y, s)]
   IN  IF rot THEN {[ret |-> "ok", Y2 |-> keep]} ELSE {[ret |-> "ok", Y2 |-> keep], [ret |-> "ok", Y2 |-> drop]}
+
+(* SyncCommitteeMessages.Select(root, members): the stored messages of `members` that voted for `root`, in member *)
+(* order (a member listed twice is answered twice; a member without a stored message contributes nothing).       *)
+RECURSIVE SelectFrom(_, _, _, _)
+SelectFrom(msgs, root, members, x) ==
+  IF x > Len(members) THEN <<>>
+  ELSE LET hit == {m \in msgs : m.v = members[x] /\ m.root = root}
+       IN  (IF hit # {} THEN <<(CHOOSE m \in hit : TRUE).id>> ELSE <<>>) \o SelectFrom(msgs, root, members, x + 1)
+Select(msgs, root, members) == SelectFrom(msgs, root, members, 1)
+SelectDeviates(msgs, members) ==
+  /\ "SelectNilMember" \in KnownDeviations
+  /\ \E x \in 1..Len(members) : ~ \E m \in msgs : m.v = members[x]
+SelPutInto(msgs, v, root, id) == {m \in msgs : m.v # v} \cup {[v |-> v, root |-> root, id |-> id]}
 
 BufOf(c, slot) == IF slot + 1 = c THEN "prev" ELSE IF slot = c THEN "cur" ELSE IF slot = c + 1 THEN "next" ELSE "none"
 
@@ -239,7 +265,22 @@ SyncReset(s) ==
        /\ Step([ev |-> "SyncReset", slot |-> s, ret |-> "ok"])
   /\ UNCHANGED <<att, keyed>>
 
-Next == \/ \E a \in MCAtts : AddAtt(a)
+SelPut(v, r) ==
+  /\ Which = "select" /\ calls < MaxCalls
+  /\ sync' = [sync EXCEPT !.sel = SelPutInto(@, v, r, "s" \o ToString(v) \o ToString(r))]
+  /\ Step([ev |-> "SelPut", v |-> v, root |-> r, id |-> "s" \o ToString(v) \o ToString(r), ret |-> "ok"])
+  /\ UNCHANGED <<att, keyed>>
+
+SelectQ(root, members) ==
+  /\ Which = "select" /\ calls < MaxCalls
+  /\ Step([ev |-> "Select", root |-> root, members |-> members, ret |-> "ok", res |-> Select(sync.sel, root, members)])
+  /\ UNCHANGED <<att, keyed, sync>>
+
+MCMembers == UNION {[1..n -> 1..4] : n \in 0..3}     \* every member list of length <= 3 over 4 validators (3 can hold a message)
+
+Next == \/ \E v \in 1..3, r \in 0..1 : SelPut(v, r)
+        \/ \E r \in 0..1, ms \in MCMembers : SelectQ(r, ms)
+        \/ \E a \in MCAtts : AddAtt(a)
         \/ \E f \in MCFilters : Search(f[1], f[2])
         \/ \E e \in 0..4 : Prune(e)
         \/ \E pool \in {"ps", "as", "ex"}, key \in 1..3, n \in 1..2 : AddKeyed(pool, key, pool \o ToString(key) \o ToString(n))
@@ -279,6 +320,18 @@ PruneExact ==
 
 KeyedOK == \A pool \in {"ps", "as", "ex"} : \A x, y \in keyed[pool] : x.key = y.key => x = y
 KeyedKept == [][\A pool \in {"ps", "as", "ex"} : keyed[pool] \subseteq keyed'[pool]]_vars
+
+(* Select answers only with stored messages of listed members that voted for the root, each listed member's message
+   is there, and the order is the member order *)
+SelectSound ==
+  \A r \in 0..1, ms \in MCMembers :
+    LET out == Select(sync.sel, r, ms) IN
+    /\ \A x \in 1..Len(out) : \E m \in sync.sel : m.id = out[x] /\ m.root = r /\ \E y \in 1..Len(ms) : ms[y] = m.v
+    /\ Len(out) = Cardinality({y \in 1..Len(ms) : \E m \in sync.sel : m.v = ms[y] /\ m.root = r})
+    /\ \A x, y \in 1..Len(out) : x < y =>
+          \E a, b \in 1..Len(ms) : a < b /\ (\E m \in sync.sel : m.id = out[x] /\ m.v = ms[a])
+                                          /\ (\E m \in sync.sel : m.id = out[y] /\ m.v = ms[b])
+SelOnePerValidator == \A m, n \in sync.sel : m.v = n.v => m = n
 
 SyncWindow == sync.cur # -1 => sync.held = InWin(sync.held, sync.cur)
 SyncRotationKeeps ==
